@@ -1439,6 +1439,8 @@ func TestVerifC03(t *testing.T) {
 		delete(raceEnvs, k)
 	}
 	c03xStreams(t, rec, rnd)
+	// (vii) long-lived sessions (verif_c03_sess_test.go): open BLIP contexts / continuous feeds across role swaps
+	c03sStreams(t, rec, rnd)
 	if b, err := json.Marshal(map[string]int{"race": nRace + 2*len(raceCorpus), "random": nRand, "adversarial": nRand / 2, "exhaustive": nEx, "purge": nPurge + len(purgeCorpus)}); err == nil {
 		rec.Extra("histories", string(b))
 	}
